@@ -11,6 +11,5 @@ CONSTANTS
   MaxStep = 2
   LimitOnPoured = FALSE
   GenLen = 12
-  MidOneIn = 12
 INVARIANT GPrint
 CHECK_DEADLOCK FALSE
